@@ -6,9 +6,7 @@ sys.path.insert(0, HERE)
 from sa import props
 
 NA = {
-    "C09": "connection-set equations: equality of solution sets over all connection graphs depends on data-dependent dictionary merging in expand_connectors; no shape-visible necessary condition exists that is not a frozen-fragment match (DESIGN.md section 5)",
     "C14": "simplification preserves solutions: quantifies over numeric solutions of CasADi expression graphs under 2^11 option combinations; the only structural necessary condition (eliminated symbols substituted everywhere) is claimed under C15, not twice",
-    "C16": "alias metadata merge: the statement is an arithmetic formula (max/min/negation by sign); a static check would match the formula's syntax tree and fire on any equivalent rewrite",
 }
 TECH = {}
 checks = []
